@@ -153,7 +153,8 @@ func main() {
 		return
 	}
 
-	// corpus: stored scenarios (minimal failing cases of repaired / known defects) run first, three times each
+	// corpus: stored scenarios (minimal failing cases of repaired / known defects), run once each with the others
+	var corpus []*Scenario
 	if i := strings.Index(a.Extra, "corpus="); i >= 0 {
 		dir := strings.Fields(a.Extra[i+len("corpus="):])[0]
 		files, _ := filepath.Glob(filepath.Join(dir, "*.json"))
@@ -164,16 +165,13 @@ func main() {
 				continue
 			}
 			sc.ID = 100000 + fi
-			for k := 0; k < 3; k++ {
-				cr := runChild(self, a.Out, sc, fmt.Sprintf("corpus%d", k))
-				res.Eval("corpus/"+filepath.Base(f), cr.out != nil && cr.out.Nontrivial)
-				res.Count("corpus_runs", 1)
-				if d, known, extra := describe(cr); d != "" {
-					res.ViolateWith("corpus "+filepath.Base(f)+": "+d, sc, known, extra)
-					break
-				}
+			sc.TimeoutMs = 15000
+			if a.Thorough() {
+				sc.TimeoutMs = 60000
 			}
+			corpus = append(corpus, sc)
 		}
+		res.Count("corpus_scenarios", len(corpus))
 	}
 
 	n := 300
@@ -239,6 +237,9 @@ func main() {
 				}
 			}
 		}()
+	}
+	for _, sc := range corpus {
+		jobs <- sc
 	}
 	for _, sc := range scs {
 		jobs <- sc
